@@ -399,7 +399,7 @@ fn single_faults(t: &RealTrain, max_exh_burst: usize, long_bursts: bool) -> Vec<
 
 fn part_a(rep: &Report, tier: Tier) {
     let trains = real_trains(tier);
-    let max_burst = if tier.thorough() { 14 } else { 10 };
+    let max_burst = if tier.thorough() { 16 } else { 10 };
     let rx0 = RxS::new(2, 64, &[64, 64, 64]);
     for (ti, t) in trains.iter().enumerate() {
         if rep.over_time() {
